@@ -1032,7 +1032,11 @@ class Client():
 
             method = redirect.get('method')
 
-            host = coring.normalizeHost(hostname)
+            try:
+                host = coring.normalizeHost(hostname)
+            except OSError as ex:  # host of location does not resolve
+                raise httping.InvalidURL("Unresolvable redirect host '{0}': {1}"
+                                         "".format(hostname, ex))
             ha = (host, port)
             if ha != self.connector.ha or scheme != self.requester.scheme:
                 if self.requester.scheme == 'https' and scheme != 'https':
